@@ -21,6 +21,79 @@ def field_writes(P, field):
     return out
 
 
+def node_roles(P):
+    cw = field_writes(P, CONNECTED)
+    aw = field_writes(P, NODE_ADDR)
+    sets_true = {f.name for (f, i, k) in cw if k == "store" and (rules.const_of(f, i["val"]) or 0) & 1}
+    sets_false = {f.name for (f, i, k) in cw if k == "store" and rules.const_of(f, i["val"]) == 0}
+    addr_writers = {f.name for (f, i, k) in aw}
+    parser = {n for n in (sets_true | sets_false | addr_writers) if "parser" in P.functions[n].relfile}
+    return dict(cw=cw, aw=aw, parser=parser, lost_role=(sets_false - sets_true) - parser, new_roles=(sets_true & addr_writers) - parser)
+
+
+def upd_rule(chk, P, roles, rid):
+    """shared with C09: commands go to the board's *current* address only if every node-new notice for a configured board rewrites it"""
+    cw, aw, new_roles, lost_role, parser = roles["cw"], roles["aw"], roles["new_roles"], roles["lost_role"], roles["parser"]
+    # ---- UPD: a notice for a configured board always updates it
+    chk.rule(rid, "in the connect / lost routines every path on which the board lookup succeeded writes the connected flag (connect: and the node address)")
+    nupd = 0
+    for name in sorted((new_roles | lost_role) - parser):
+        f = P.functions[name]
+        need = [CONNECTED] + ([NODE_ADDR] if name in new_roles else [])
+        wr = {fld: {i.id for (g, i, k) in (cw if fld == CONNECTED else aw) if g is f} for fld in need}
+        loops = f.loops()
+        # lookups: calls whose pointer result is stored to a local that is compared with null and through which the flag is written
+        for c in f.calls():
+            if not c.callee or c.callee not in P.functions or not c.get("ty", "").endswith("*"):
+                continue
+            cell = None
+            for st in f.all_insts():
+                if st.op == "store" and st["val"].get("k") == "inst" and st["val"]["id"] == c.id:
+                    a = f.resolve(st["ptr"])
+                    if a is not None and a.op == "alloca":
+                        cell = a
+            if cell is None:
+                continue
+            through = any(_board_key(f, f.insts[i]["ptr"]) in (("call", c.id), ("load", ("alloca", cell.id))) for i in wr[CONNECTED] if f.insts[i].op == "store")
+            if not through:
+                continue
+            for b in f.blocks:
+                t = b.term
+                if t.op != "br" or "cond" not in t.d:
+                    continue
+                cnd = f.resolve(t["cond"])
+                if cnd is None or cnd.op != "icmp" or cnd["pred"] not in ("eq", "ne") or cnd["b"].get("k") != "null":
+                    continue
+                src = rules.load_source(f, cnd["a"])
+                if not src or src != ("alloca", cell.id):
+                    continue
+                if not rules.exists_path(f, c, lambda x, t=t: x.id == t.id, None):
+                    continue
+                found = t["t"] if cnd["pred"] == "ne" else t["f"]
+                start = f.bmap[found].insts[0]
+                heads = {h for h, body in loops.items() if b.id in body}
+                def leaves(x, heads=heads):
+                    return x.op == "ret" or (x.bb.id in heads and x.idx == 0)
+                for fld in need:
+                    nupd += 1
+                    def done(x, ids=wr[fld], fld=fld):
+                        if x.id in ids:
+                            return True
+                        if x.op == "br" and "cond" in x.d:
+                            # the current value of the field was compared: a path that then skips the write changes nothing
+                            from .c02 import _cond_loads
+                            return any(fld in rules.field_chain(P, f, l["ptr"]) for l in _cond_loads(f, x["cond"]))
+                        return False
+                    p_ = rules.exists_path(f, start, leaves, done, include_start=True)
+                    if p_:
+                        chk.violation(rid, name, fld, t.loc(), "the board was found (line %d) but a path leaves without writing %s (%s): the notice is ignored and the board keeps its old %s" % (
+                            t.line, fld, rules.path_text(p_), "address" if fld == NODE_ADDR else "connection state"))
+                    else:
+                        chk.ok(rid, 1, {"routine": name, "field": fld, "found_edge": t.loc()})
+    chk.floor("found_board_updates", nupd, 4)
+
+
+
 def run(chk, w):
     P = w.P
     D = dispatch.Dispatch(w)
@@ -122,6 +195,8 @@ def run(chk, w):
             chk.ok("C15-ADDR", 1, {"store": i.loc()})
         else:
             chk.violation("C15-ADDR", f.name, NODE_ADDR, i.loc(), "a board's node address is (re)written without marking that board connected on the same path")
+
+    upd_rule(chk, P, dict(cw=cw, aw=aw, new_roles=new_roles, lost_role=lost_role, parser=parser), "C15-UPD")
 
     # ---- CONN
     chk.rule("C15-CONN", "a message whose destination is a board's stored node address is sent only behind a test of that board's connected flag")
